@@ -139,7 +139,7 @@ pub fn churn<const V: u32>(d: &mut Driver<V>, p: &Params, heap_mb: usize, is_nog
                 0 => (2, unit.max(16384) & !7),
                 1 => (0, (unit / 2).clamp(1024, 30000) & !7),
                 2 => (0, (unit / 8).clamp(256, 8192) & !7),
-                _ => (0, 24 + 8 * d.rng.below(64) as usize),
+                _ => (0, 32 + 8 * d.rng.below(64) as usize),
             };
             let sem = if p.sems.contains(&sem) { sem } else { 0 };
             d.new_object(0, (i as usize) % ring, sem, size, 1, 8, 0, KIND_PLAIN);
